@@ -21,7 +21,7 @@ import signal
 import struct
 import time
 
-from .drive import asm, mods, Hang
+from .drive import asm, mods, Hang, watchdog
 
 # ------------------------------------------------------------------------------------------------
 # token classes -> representatives
@@ -482,12 +482,13 @@ def cyclic_definition(text):
     graph = {}
     try:
         col = []
-        with m["reports"].handle_reports(lambda *a: col.append(a[1])):
-            try:
-                tree = m["parser"].parse(MAIN, text)
-            except m["reports"].UnrecoverableError:
-                tree = None
-    except Exception:       # the parser itself may be what crashes: the classifier then works line-wise
+        with watchdog(3.0):     # the parser itself may be what hangs or crashes: the classifier then works line-wise
+            with m["reports"].handle_reports(lambda *a: col.append(a[1])):
+                try:
+                    tree = m["parser"].parse(MAIN, text)
+                except m["reports"].UnrecoverableError:
+                    tree = None
+    except (Exception, Hang):
         tree = None
     if tree is not None:
         _walk(tree.body, graph, set(), None)
@@ -565,6 +566,12 @@ def signature(text, o):
     if o[0] == "ok" and errs:
         return "success-after-error"
     return "good"
+
+
+def classify_task(arg):
+    """(idx, text, outcome, exc) -> (idx, tags)"""
+    idx, text, outcome, exc = arg
+    return (idx, shape_tags(text, outcome, exc))
 
 
 def confirm_task(arg):
